@@ -144,6 +144,12 @@ fn cmd_check(args: &[String]) -> i32 {
         }
     }
 
+    if let Some(a) = arg_val(args, "--assume-open") {
+        // development aid: treat the named findings as active without consulting witnesses
+        for x in a.split(',') {
+            active.insert(x.to_string());
+        }
+    }
     // 2. seeded search
     let templates = props::templates(&prop);
     let deadline = t0 + std::time::Duration::from_secs(if tier == "thorough" { 3000 } else { 600 });
@@ -261,6 +267,17 @@ fn cmd_check(args: &[String]) -> i32 {
         eprintln!("harness error: cannot write {}: {}", epath, e);
         return 2;
     }
+    if args.iter().any(|a| a == "--verbose") {
+        for (k, v) in res.per_scenario.iter() {
+            println!("  scenario {:40} runs={:7} known={:6} violations={}", k, v.0, v.1, v.2);
+        }
+        let mut seen = BTreeSet::new();
+        for (idx, sc, fs, f) in res.known_examples.iter() {
+            if seen.insert((sc.clone(), f.clause.clone(), fs.clone())) {
+                println!("  known example: run {} {} {:?} clause {} step {}: {}", idx, sc, fs, f.clause, f.step, f.detail.lines().next().unwrap_or(""));
+            }
+        }
+    }
     println!(
         "{}: {} runs ({} distinct non-trivial), {} kernel events, {} faults fired, {} runs attributed to known findings {:?}, {} violations, {:.1}s",
         prop,
@@ -296,6 +313,16 @@ fn cmd_replay(args: &[String]) -> i32 {
             return 2;
         }
     };
+    if args.iter().any(|a| a == "--judge") {
+        let out = exec_named(Lib::Cur, &r.config, &r.events, false);
+        let b = exec_named(Lib::Base, &r.config, &r.events, false);
+        println!("cur : {:?}", out.primary());
+        println!("base: {:?}", b.primary());
+        if let Some(f) = out.primary() {
+            println!("triggers: {:?}", findings::triggers(&out.facts, f));
+        }
+        return 0;
+    }
     let (ok, out) = reproduces(&r, !quiet);
     if !quiet {
         for l in out.log.iter() {
@@ -387,52 +414,60 @@ fn cmd_selftest_log(args: &[String]) -> i32 {
     0
 }
 
-/// search for a minimal history that fails and is attributed to exactly the given finding
+/// search for a small history that fails and is attributed to the given finding (preferably to it alone)
 fn cmd_witness(args: &[String]) -> i32 {
     let prop = args.get(0).cloned().unwrap_or_default();
     let fid = args.get(1).cloned().unwrap_or_default();
     let seed = seed_from(args);
     let runs: u64 = arg_val(args, "--runs").and_then(|s| s.parse().ok()).unwrap_or(200_000);
-    let want_clause = arg_val(args, "--clause");
+    let all: Vec<String> = arg_val(args, "--all").unwrap_or_else(|| "F1,F2,F3,F4,F5,F6,F7,F10,F11".into()).split(',').map(|s| s.to_string()).collect();
     let templates = props::templates(&prop);
-    let open: BTreeSet<String> = [fid.clone()].into_iter().collect();
-    let mut best: Option<(Vec<Ev>, Config, Failure, String, u64)> = None;
+    let open: BTreeSet<String> = all.iter().cloned().collect();
+    // (number of findings the history is attributed to, number of events)
+    let mut best: Option<((usize, usize), Vec<Ev>, Config, Failure, String, u64)> = None;
+    let mut shrunk = 0;
     for i in 0..runs {
         let r = one_run(&prop, &templates, seed, i, &open, false);
         if let Verdict3::Known(fs) = &r.verdict {
-            if fs.len() == 1 && fs[0] == fid {
-                let f0 = r.out.primary().unwrap().clone();
-                if let Some(c) = &want_clause {
-                    if *c != f0.clause {
-                        continue;
-                    }
+            if !fs.contains(&fid) {
+                continue;
+            }
+            if let Some(b) = &best {
+                if fs.len() > b.0 .0 {
+                    continue;
                 }
-                let cfg = r.cfg.clone();
-                let open2 = open.clone();
-                let clause = f0.clause.clone();
-                let fid2 = fid.clone();
-                let pred = move |evs: &[Ev]| -> bool {
-                    let out = exec_named(Lib::Cur, &cfg, evs, false);
-                    match out.primary() {
-                        Some(f) if f.clause == clause => matches!(judge(&cfg, evs, &out, &open2), Verdict3::Known(ref k) if k.len() == 1 && k[0] == fid2),
-                        _ => false,
-                    }
-                };
-                let small = shrink(&r.events, &pred, 3000);
-                let out = exec_named(Lib::Cur, &r.cfg, &small, false);
-                if let Some(f) = out.primary() {
-                    if best.as_ref().map_or(true, |b| small.len() < b.0.len()) {
-                        best = Some((small, r.cfg.clone(), f.clone(), r.scenario.clone(), i));
-                    }
+            }
+            let f0 = r.out.primary().unwrap().clone();
+            let cfg = r.cfg.clone();
+            let open2 = open.clone();
+            let clause = f0.clause.clone();
+            let fid2 = fid.clone();
+            let nfs = fs.len();
+            let pred = move |evs: &[Ev]| -> bool {
+                let out = exec_named(Lib::Cur, &cfg, evs, false);
+                match out.primary() {
+                    Some(f) if f.clause == clause => matches!(judge(&cfg, evs, &out, &open2), Verdict3::Known(ref k) if k.contains(&fid2) && k.len() <= nfs),
+                    _ => false,
                 }
-                if best.as_ref().map_or(false, |b| b.0.len() <= 6) {
+            };
+            let small = shrink(&r.events, &pred, 2500);
+            shrunk += 1;
+            let out = exec_named(Lib::Cur, &r.cfg, &small, false);
+            if let (Some(f), Verdict3::Known(k)) = (out.primary(), judge(&r.cfg, &small, &out, &open)) {
+                let score = (k.len(), small.len());
+                if best.as_ref().map_or(true, |b| score < b.0) {
+                    best = Some((score, small, r.cfg.clone(), f.clone(), r.scenario.clone(), i));
+                }
+            }
+            if let Some(b) = &best {
+                if (b.0 .0 == 1 && b.0 .1 <= 7) || shrunk >= 60 {
                     break;
                 }
             }
         }
     }
     match best {
-        Some((events, cfg, failure, scenario, idx)) => {
+        Some((score, events, cfg, failure, scenario, idx)) => {
             let path = format!("{}/known/{}-{}.json", verif_root(), fid, prop);
             let rf = ReplayFile {
                 property: prop.clone(),
@@ -443,14 +478,14 @@ fn cmd_witness(args: &[String]) -> i32 {
                 config: cfg,
                 events,
                 failure,
-                note: format!("witness of recorded finding {} for property {}", fid, prop),
+                note: format!("witness of recorded finding {} for property {} (history carries the triggers of {} finding(s))", fid, prop, score.0),
             };
             write_replay(&path, &rf).unwrap();
-            println!("wrote {} ({} events)", path, rf.events.len());
+            println!("wrote {} ({} events, {} trigger(s))", path, rf.events.len(), score.0);
             0
         }
         None => {
-            println!("no run attributed to {} alone among {} runs of {}", fid, runs, prop);
+            println!("no run attributed to {} among {} runs of {}", fid, runs, prop);
             1
         }
     }
